@@ -70,13 +70,15 @@ Consumers(a, N) == { c \in Children(a) : \E v \in N : <<a, v>> \in prog.ins[c] }
 -----------------------------------------------------------------------------
 (* Ground truth                                                            *)
 
-Flying(a)  == { t \in Tg : fly[<<a, t>>] > 0 }
+(* work released before the last (re)load is abandoned by the reload (its
+   result is ignored), so it does not count as executing *)
+Flying(a)  == { t \in Tg : fly[<<a, t>>] - stale[<<a, t>>] > 0 }
 Work(a)    == todo[a] \cup doing[a] \cup Flying(a)          \* pending or executing
 Blocked(a, t) ==
     \E b \in Anc(a) : \/ t \in Work(b)
                       \/ ALL \in Work(b)
                       \/ (t = ALL /\ Work(b) # {})
-Executing(a, t) == t \in doing[a] \/ fly[<<a, t>>] > 0
+Executing(a, t) == t \in doing[a] \/ fly[<<a, t>>] - stale[<<a, t>>] > 0
 
 -----------------------------------------------------------------------------
 (* schedule.organize(task_names = S, targets = T)                          *)
@@ -140,14 +142,17 @@ CompleteHand(a, t)  == IF Pinned THEN hand ELSE [hand EXCEPT ![a] = @ \ {t}]
    algorithm tree lose t from do / doing / todo *)
 PurgeSet(a) == {a} \cup Desc(a)
 
-Reply(a, t, out, new) ==
-    /\ fly[<<a, t>>] > 0
+Reply(a, t, out, new, old) ==
+    /\ IF old THEN stale[<<a, t>>] > 0 ELSE fly[<<a, t>>] - stale[<<a, t>>] > 0
     /\ out = "success" \/ new = {}
     /\ new \subseteq prog.vals[a]
     /\ fly' = [fly EXCEPT ![<<a, t>>] = @ - 1]
-    /\ LET isStale == stale[<<a, t>>] > 0 IN
+    /\ LET isStale == old IN
        /\ stale' = IF isStale THEN [stale EXCEPT ![<<a, t>>] = @ - 1] ELSE stale
-       /\ IF a \notin que
+       /\ IF isStale /\ ~Pinned
+          THEN \* fix (finding 14): a result of work released before the last (re)load is ignored
+               UNCHANGED <<todo, doing, hand, que, nrec, ndrop>>
+          ELSE IF a \notin que
           THEN \* schedule.find raises IndexError: "Could not find job"
                /\ ndrop' = IF isStale THEN ndrop ELSE ndrop + 1
                /\ UNCHANGED <<todo, doing, hand, que, nrec>>
@@ -187,11 +192,11 @@ RunChoices == { S \in SUBSET Alg : Cardinality(S) \in 1..2 }
 Next ==
     \/ \E S \in RunChoices, T \in SUBSET Tg : Run(S, T)
     \/ Tick
-    \/ \E a \in Alg, t \in Tg, out \in Outcomes : \E new \in SUBSET prog.vals[a] : Reply(a, t, out, new)
+    \/ \E a \in Alg, t \in Tg, out \in Outcomes : \E new \in SUBSET prog.vals[a], old \in BOOLEAN : Reply(a, t, out, new, old)
     \/ \E S \in SUBSET Alg : Reload(S)
 
 Spec == Init /\ [][Next]_vars
-FairSpec == Spec /\ WF_vars(Tick) /\ WF_vars(\E a \in Alg, t \in Tg : \E new \in SUBSET prog.vals[a] : Reply(a, t, "success", new))
+FairSpec == Spec /\ WF_vars(Tick) /\ WF_vars(\E a \in Alg, t \in Tg : \E new \in SUBSET prog.vals[a] : Reply(a, t, "success", new, FALSE))
 
 -----------------------------------------------------------------------------
 (* PROPERTY LEVEL -- restates the given properties over the abstract      *)
@@ -230,7 +235,7 @@ C04_Quiesce == <>[](que = {} /\ \A u \in Alg \X Tg : fly[u] = 0)
 (* C05 *)
 C05_Contained ==
     [][ \A x \in Alg, t \in Tg, out \in {"failure", "invalid"} :
-          (Reply(x, t, out, {}) /\ x \in que) =>
+          (Reply(x, t, out, {}, FALSE) /\ x \in que) =>
           /\ \A d \in Desc(x) : t \notin todo'[d]
           /\ \A a \in Alg, s \in Tg :
                (a \notin (Desc(x) \cup {x}) \/ s # t) =>
@@ -243,7 +248,7 @@ C05_Contained ==
 Affected(c, t) == IF IsAsp(c) THEN {ALL} ELSE IF t = ALL THEN Targets ELSE {t}
 C02_Step ==
     [][ \A x \in Alg, t \in Tg : \A N \in SUBSET prog.vals[x] :
-          (Reply(x, t, "success", N) /\ x \in que) =>
+          (Reply(x, t, "success", N, FALSE) /\ x \in que) =>
           LET C == Consumers(x, N) IN
           /\ \A c \in C : Affected(c, t) \subseteq todo'[c] \cup doing'[c]
           /\ \A c \in Alg \ C : todo'[c] = todo[c] ]_vars
